@@ -20,6 +20,8 @@ def mk(desc):
         return tuple(v)
     if k == "s":
         return str(v)
+    if k == "n":
+        return None
     raise ValueError(desc)
 
 
@@ -33,7 +35,16 @@ def build_uf(UnionFind, objs, code_of, init):
     if kind == "none":
         return UnionFind(None), None
     elems = [objs[c] for c in init["elems"]]
-    if kind == "list":
+    keep = None
+    if kind == "iter":
+        cont, order = iter(list(elems)), list(init["elems"])
+    elif kind == "map":
+        cont, order = map(lambda e: e, list(elems)), list(init["elems"])
+    elif kind == "dictkeys":
+        keep = dict.fromkeys(elems)
+        cont = keep.keys()
+        order = [code_of(o) for o in keep]
+    elif kind == "list":
         cont, order = list(elems), list(init["elems"])
     elif kind == "tuple":
         cont, order = tuple(elems), list(init["elems"])
@@ -44,7 +55,17 @@ def build_uf(UnionFind, objs, code_of, init):
         cont, order = (e for e in elems), list(init["elems"])
     else:
         raise ValueError(kind)
-    return UnionFind(cont), order
+    uf = UnionFind(elements=cont) if init.get("kw") else UnionFind(cont)
+    # the caller goes on using its container: the structure must not be affected
+    if kind == "list":
+        cont.extend(elems[:1])
+        cont.reverse()
+        del cont[:1]
+    elif kind == "set":
+        cont.clear()
+    elif keep is not None:
+        keep.clear()
+    return uf, order
 
 
 def run_uf(case):
@@ -84,7 +105,11 @@ def run_uf(case):
         args = [] if name == "getitem" else [objs[a] for a in op[1:]]
         try:
             if name == "getitem":
-                r = uf[op[1]]
+                i = op[1]
+                if len(op) > 2 and op[2] == "i64":
+                    import numpy as np
+                    i = np.int64(i)
+                r = uf[i]
                 c = enc(r)
                 return ["elt", c] if c is not None else ["other", "uf[%d] returned %r" % (op[1], r)]
             elif name == "add":
@@ -104,13 +129,24 @@ def run_uf(case):
                 return ["bool", bool(r)] if isinstance(r, (bool,)) or type(r).__name__ == "bool_" else ["other", repr(r)]
             elif name == "component":
                 r = uf.component(*args)
-                return enc_set(r) if isinstance(r, (set, frozenset)) else ["other", repr(r)]
+                o = enc_set(r) if isinstance(r, (set, frozenset)) else ["other", repr(r)]
+                if isinstance(r, set):
+                    r.clear()   # the caller may do what it likes with the answer
+                return o
             elif name == "roots":
                 r = uf.roots()
-                return enc_set([uf[int(i)] for i in r]) if isinstance(r, (set, frozenset)) else ["other", repr(r)]
+                o = enc_set([uf[int(i)] for i in r]) if isinstance(r, (set, frozenset)) else ["other", repr(r)]
+                if isinstance(r, set):
+                    r.clear()
+                return o
             elif name == "components":
                 r = uf.components()
                 l = [enc_set(c) for c in r]
+                for c in r:
+                    if isinstance(c, (list, set)):
+                        c.clear()
+                if isinstance(r, list):
+                    r.clear()
                 if any(c[0] != "set" for c in l):
                     return ["other", "bad component"]
                 return ["sets", sorted(c[1] for c in l)]
@@ -123,6 +159,11 @@ def run_uf(case):
                     if ck is None or cv[0] != "set":
                         bad = True
                     items.append([ck, cv[1]])
+                for v in list(r.values()):
+                    if isinstance(v, set):
+                        v.clear()
+                if isinstance(r, dict):
+                    r.clear()
                 return ["other", "bad mapping"] if bad else ["map", sorted(items)]
             elif name == "len":
                 return ["nat", len(uf)]
@@ -180,23 +221,35 @@ def run_pq(case):
     keep = []
 
     def pr(p):
+        try:
+            p = float(p)
+        except Exception:  # noqa
+            return repr(p)
         if p == math.inf:
             return "inf"
         if p == -math.inf:
             return "-inf"
         return p
 
-    def val(w):
-        return math.inf if w == "inf" else (-math.inf if w == "-inf" else w)
+    def val(w, rp="py"):
+        w = math.inf if w == "inf" else (-math.inf if w == "-inf" else w)
+        if rp in ("py", None):
+            return w
+        import numpy as np
+        return {"int": int, "float": float, "bool": bool, "i64": np.int64, "f32": np.float32, "f64": np.float64}[rp](w)
 
     def code_of(it):
         return ident.get(id(it), -1)
 
     def data():
-        return [[code_of(it), pr(it.priority)] for it in pq.data]
+        # anything that is not one of the pushed items shows up as code -1 / a repr (never a crash of the harness)
+        try:
+            return [[code_of(it), pr(getattr(it, "priority", "not-an-item"))] for it in pq.data]
+        except Exception as ex:  # noqa
+            return [[-1, "data unreadable: %s" % type(ex).__name__]]
 
     def register(c):
-        for it in pq.data:
+        for it in (pq.data if isinstance(pq.data, list) else []):
             if id(it) not in ident:
                 ident[id(it)] = c
                 keep.append(it)
@@ -207,7 +260,7 @@ def run_pq(case):
                 a = aops[k]
                 try:
                     if a[0] == "push":
-                        q.push(mkpayload(a[1]), val(a[2]))
+                        q.push(mkpayload(a[1]), val(a[2], a[3] if len(a) > 3 else "py"))
                     elif a[0] in ("pop", "get"):
                         q.pop()
                     elif a[0] == "empty":
@@ -219,8 +272,10 @@ def run_pq(case):
         name = op[0]
         try:
             if name == "push":
+                x, w = mkpayload(op[1]), val(op[2], op[3] if len(op) > 3 else "py")
                 try:
-                    r = pq.push(mkpayload(op[1]), val(op[2]))
+                    # positional / mixed / keyword call forms
+                    r = pq.push(x, w) if k % 3 == 0 else (pq.push(x, w=w) if k % 3 == 1 else pq.push(x=x, w=w))
                 finally:
                     register(op[1])
                 o = ["none"] if r is None else ["other", repr(r)]
